@@ -1,5 +1,6 @@
 import Driver.Basic
 import Driver.C07
+import Driver.C08
 open Lean Driver
 
 def dispatch (j : Json) : R Json := do
@@ -7,6 +8,7 @@ def dispatch (j : Json) : R Json := do
   match op with
   | "ping" => pure (Json.mkObj [("pong", toJson true)])
   | "c07" => Driver.C07.handle j
+  | "c08" => Driver.C08.handle j
   | _ => throw s!"unknown op {op}"
 
 partial def loop (inp out : IO.FS.Stream) : IO Unit := do
